@@ -30,6 +30,14 @@ pub struct Cfg {
 fn data(len: usize) -> Vec<u8> {
     (0..len).map(|i| (i * 7 + 1) as u8).collect()
 }
+fn case_reader(codes: &[u8], n: &[i64]) -> (String, String, Vec<String>) {
+    let ops: Vec<Op> = codes.iter().map(|&c| OPS[c as usize]).collect();
+    let sched = Sched { chunk: n[2] as usize, mode: if n[3] < 0 { Mode::Lines } else { Mode::Step(n[3] as usize) }, fail_at: if n[4] < 0 { None } else { Some((n[4] as usize, n[5] as usize)) }, interrupt: n[6] as usize };
+    let cfg = Cfg { len: n[0] as usize, sched, bufreader: if n[1] < 0 { None } else { Some(n[1] as usize) } };
+    let mut a = vec!["seq".to_string(), op_str(&ops)];
+    a.extend(cfg_args(&cfg));
+    ("C02 the reader operation terminates".into(), format!("reader {:?} operations {}", cfg, op_str(&ops)), a)
+}
 fn op_code(o: &Op) -> String {
     match o {
         Op::Req(n) => format!("r{}", n),
@@ -78,21 +86,18 @@ fn parse_ops(s: &str) -> Vec<Op> {
 
 /// runs one sequence; returns the first violated statement
 pub fn run_seq(cfg: Cfg, ops: &[Op], prop: &str) -> Option<(String, String)> {
-    set_case_with(|s| {
-        use std::fmt::Write;
-        let _ = write!(s, "C05 the reader operation terminates\x1freader {:?} operations ", cfg);
-        for o in ops {
-            let _ = write!(s, "{:?} ", o);
+    {
+        let mut codes = [0u8; 64];
+        for (i, o) in ops.iter().take(64).enumerate() {
+            codes[i] = OPS.iter().position(|x| x == o).unwrap_or(0) as u8;
         }
-        let _ = write!(s, "\x1fseq\x1e");
-        for (i, o) in ops.iter().enumerate() {
-            let _ = write!(s, "{}{}", if i > 0 { "," } else { "" }, op_code(o));
-        }
-        let _ = write!(s, "\x1e{}\x1e{}", cfg.len, cfg.bufreader.map(|x| x as i64).unwrap_or(-1));
-        for a in cfg.sched.args() {
-            let _ = write!(s, "\x1e{}", a);
-        }
-    });
+        let (fa, fk) = cfg.sched.fail_at.map(|f| (f.0 as i64, f.1 as i64)).unwrap_or((-1, 0));
+        let step = match cfg.sched.mode {
+            Mode::Step(n) => n as i64,
+            Mode::Lines => -1,
+        };
+        set_case_raw(case_reader, &codes[..ops.len().min(64)], &[cfg.len as i64, cfg.bufreader.map(|x| x as i64).unwrap_or(-1), cfg.sched.chunk as i64, step, fa, fk, cfg.sched.interrupt as i64]);
+    }
     let all = prop == "all";
     let c02 = all || prop == "C02" || prop == "C14";
     let c09 = all || prop == "C09";
